@@ -104,7 +104,13 @@ pub struct FCase {
     /// take the dump twice with the same writer and judge the second image
     #[serde(default)]
     pub second_dump: bool,
+    /// one more thread that spins in user space with an odd value in its stack pointer
+    /// (all ones, 1, 7, 2^63, a kernel address): it is a live, attachable thread like any other
+    #[serde(default)]
+    pub odd_sp: Option<u8>,
 }
+
+pub const ODD_SPS: [u64; 6] = [u64::MAX, 1, 7, 1 << 63, 0xffff_8000_0000_0000, u64::MAX - 7];
 
 pub struct Obs {
     pub pid: i32,
@@ -183,6 +189,13 @@ pub fn run_case(c: &FCase) -> Result<Obs, RunErr> {
         stacks.push(st);
         ids.push((id, t.kind, sp));
     }
+    if let Some(sel) = c.odd_sp {
+        let st = b.add_stack(1, false, 0x0dd);
+        let sp = ODD_SPS[sel as usize % ODD_SPS.len()];
+        let id = b.add_thread(K_ODDSP, Some(b"oddsp".to_vec()), sp, 0x0dd);
+        stacks.push(st);
+        ids.push((id, K_ODDSP, sp));
+    }
     // app mappings (pattern filled), each isolated by holes; optional PROT_NONE page right after
     let mut app_maps = vec![];
     for (pages, guard_after) in &c.app_maps {
@@ -222,7 +235,7 @@ pub fn run_case(c: &FCase) -> Result<Obs, RunErr> {
     }
     let pid = t.pid;
     let case_threads: Vec<(u32, i32, u8)> = ids.iter().map(|(id, k, _)| (*id, t.tid(*id), *k)).collect();
-    let planned_sp: BTreeMap<i32, u64> = ids.iter().filter(|(_, k, _)| *k == K_PARKED || *k == K_SPINNER).map(|(id, _, sp)| (t.tid(*id), *sp)).collect();
+    let planned_sp: BTreeMap<i32, u64> = ids.iter().filter(|(_, k, _)| *k == K_PARKED || *k == K_SPINNER || *k == K_ODDSP).map(|(id, _, sp)| (t.tid(*id), *sp)).collect();
     let planned_regs: BTreeMap<i32, (Vec<u64>, Vec<u8>)> = spec.threads.iter().map(|th| (t.tid(th.id), (th.regs.clone(), th.fx.clone().unwrap_or_default()))).collect();
     let spinner_aux: BTreeMap<i32, u64> = spec.threads.iter().filter(|th| th.kind == K_SPINNER).map(|th| (t.tid(th.id), th.aux)).collect();
     let spinner_start: BTreeMap<i32, u64> = spec.threads.iter().filter(|th| th.kind == K_SPINNER).map(|th| (t.tid(th.id), th.regs[12])).collect();
@@ -425,7 +438,7 @@ pub fn case_strategy(max_threads: usize, min_threads: usize) -> impl Strategy<Va
                     }
                 }
             }
-            FCase { threads, blamed, crash, limit, app_maps, app, ip_map_pages, stop_failspot, cue_exiters, ip_neighbors, second_dump }
+            FCase { threads, blamed, crash, limit, app_maps, app, ip_map_pages, stop_failspot, cue_exiters, ip_neighbors, second_dump, odd_sp: None }
         })
 }
 
